@@ -536,6 +536,8 @@ def gen_cases(run, n_cases, max_ops, cfg):
             run.coverage["unsupported"] = run.coverage.get("unsupported", 0) + 1
             continue
         is_obj = r["meta"]["kind"] == "obj"
+        if b["data"].get("type") == "marking-definition" and rng.random() < 0.5:
+            continue        # marking definitions cannot be versioned: every mutator raises; keep some for the queries
         valid, invalid = selector_pool(rng, r["tree"], cfg, is_obj)
         if not valid:
             continue
